@@ -5,6 +5,7 @@ import json
 from .. import common, gen, trees
 
 LEVEL = "proof"
+EXTRA_LEAN_MODULES = ["Luqum.Props.GenCheck"]   # LuceneCheck.check translated from the source (tools/pysym.py)
 RULE = ("(a) arbitrary trees over all 20 item classes (any root, NoneItem, empty operations, negative degrees) "
         "x zeal 0/1/2: totality, errors()/__call__ consistency, non-mutation, messages equal to the model's; "
         "(b) well-formed trees built only from the constructs the property names: accepted; (c) each of the 7 "
